@@ -19,6 +19,7 @@ RULE = ('for each base message (cipher x recipient kind x body) the mutation fam
         'trailing newline, case, empty; non-recipient keys) are enumerated (exhaustively for the quick bases, Hypothesis-sampled beyond); '
         'non-trivial = PGPy got as far as decrypting the container (outcome PGPDecryptionError or unchanged plaintext) or a wrong '
         'credential was tried; distinct by (base, family, position).')
+RULE += ' Further families: container dropped or replaced by literal / compressed packets behind the original session-key packets; wrong passphrases in the other Unicode normal forms; wrong credentials offered to a message object that was already decrypted once.'
 ASSUMPTIONS = ['any exception counts as "raises"', 'a per-case watchdog (10 s) turns a hang into "abandoned" (counted, never a violation)',
                'passphrase bases for exhaustive flipping use a foreign SKESK with a low S2K count (PGPy\'s own count costs 0.15 s per attempt); '
                'PGPy-made passphrase messages are flipped by sampling']
